@@ -202,7 +202,8 @@ Blank(owner, operator, now) ==
     [deployed |-> FALSE, epoch |-> 0, hashByEpoch |-> <<>>,
      epochOf |-> [s \in SetNames |-> 0], lastRot |-> 0, now |-> now,
      status |-> [k \in KeyNames |-> "none"], execCount |-> [k \in KeyNames |-> 0],
-     owner |-> owner, operator |-> operator]
+     owner |-> owner, operator |-> operator,
+     hist |-> <<>>]   \* ghost: instances may record the route taken (history-sensitive coverage)
 
 Construct(st, a) ==
     IF a.sets = <<>> THEN Rej(st, "nonempty_list", {"nonempty_list"})
